@@ -766,7 +766,7 @@ M('c04-exists-keeps-removed-memo', 'C04', 'R4.11', [(BD,
 M('c05-case-check-everywhere', 'C05', 'R5.10', [(FB,
   "            not FileBuilder._IS_WINDOWS or\n",
   "")], 'Path.resolve() follows symlinks on every platform')
-M('c02-rollback-recreates-before-restore', ['C02', 'C03'], 'R2.7', [(FB,
+M('c02-rollback-recreates-before-restore', ['C02', 'C03'], ['R2.7', 'R3.5'], [(FB,
   "        self._backups.restore_all()\n"
   "        FileBuilder._create_dirs(self._old_cache.created_dirs())\n"
   "        logger.info('Rolled back build operation')",
@@ -775,7 +775,7 @@ M('c02-rollback-recreates-before-restore', ['C02', 'C03'], 'R2.7', [(FB,
   "        logger.info('Rolled back build operation')")],
   'the defect fixed by 515d796: a directory is re-created where a backed-up '
   'file belongs')
-M('c02-rollback-restores-before-removal', ['C02', 'C03'], 'R2.7', [(FB,
+M('c02-rollback-restores-before-removal', ['C02', 'C03'], ['R2.7', 'R3.5'], [(FB,
   "        FileBuilder._remove_empty_dirs(list(dirs_to_remove))\n\n"
   "        # Restore the backups before recreating",
   "\n        # Restore the backups before recreating"),
@@ -785,3 +785,38 @@ M('c02-rollback-restores-before-removal', ['C02', 'C03'], 'R2.7', [(FB,
   "        FileBuilder._create_dirs(self._old_cache.created_dirs())\n"
   "        FileBuilder._remove_empty_dirs(list(dirs_to_remove))\n"
   "        logger.info('Rolled back build operation')")])
+# ---- rules added in round 8 ----------------------------------------------
+M('c18-equality-with-tolerance', ['C18', 'C06', 'C07', 'C01'],
+  ['R18.7', 'R6.6', 'R7.6', 'R1.10'], [(JU,
+  "            return value1 == value2\n",
+  "            return value1 == value2 or (\n"
+  "                value1.__class__ == float and\n"
+  "                round(value1, 9) == round(value2, 9))\n")],
+  'numbers compared after rounding')
+M('c15-version-read-with-default', 'C15', 'R15.6', [(CA,
+  "                cache_json['cacheFileVersion'], Cache._CACHE_FILE_VERSION):",
+  "                cache_json.get('cacheFileVersion'),\n"
+  "                Cache._CACHE_FILE_VERSION):")],
+  'a cache file without a version member is accepted')
+M('c13-sample-before-visibility', 'C13', 'R13.6', [(EX,
+  "        norm_cased_filename = os.path.normcase(filename)\n"
+  "        is_file_no_read = self._is_file_no_read(\n"
+  "            norm_cased_filename, created_files)\n"
+  "        if is_file_no_read is False:",
+  "        norm_cased_filename = os.path.normcase(filename)\n"
+  "        try:\n"
+  "            self.file_comparison_result(filename, file_comparison_name)\n"
+  "        except OSError:\n"
+  "            pass\n"
+  "        is_file_no_read = self._is_file_no_read(\n"
+  "            norm_cased_filename, created_files)\n"
+  "        if is_file_no_read is False:")],
+  'the file is sampled (and its digest memoised) before the view is asked')
+M('c18-float-key-through-int', ['C18', 'C07'], ['R18.7', 'R7.6'], [(JU,
+  "        elif isinstance(key, int):\n            return repr(key)\n"
+  "        elif isinstance(key, float):\n            if key != key:",
+  "        elif isinstance(key, (int, float)) and key == key and \\\n"
+  "                abs(key) != float('inf') and key == int(key):\n"
+  "            return repr(int(key))\n"
+  "        elif isinstance(key, float):\n            if key != key:")],
+  'integral float keys lose their spelling')
